@@ -110,6 +110,15 @@ def _replace_names(N, node, mapping, depth=0):
                     _replace_names(N, x, mapping, depth + 1)
 
 
+_PURE_METHODS = {"split", "rsplit", "partition", "rpartition", "replace", "count", "format", "lower", "upper", "strip", "lstrip", "rstrip", "join",
+                 "startswith", "endswith", "get", "keys", "values", "items", "title", "capitalize", "find", "index", "is_aligned_at", "is_aligned_at_byte"}
+
+
+def _pure_method_call(N, call) -> bool:
+    """a method call on a value (`x.split('.')`) with a side-effect free, deterministic str/dict method: as good as an operator"""
+    return isinstance(call.node, N.Getattr) and call.node.attr in _PURE_METHODS and call.dyn_args is None and call.dyn_kwargs is None
+
+
 def inline_single_sets(N, ast) -> int:
     """Normalisation applied to every parsed template: inside each macro, a template variable that is assigned exactly once
     (`{% set x = expr %}`), is not a parameter or loop variable, and whose expression is pure (no macro call, no
@@ -158,7 +167,7 @@ def inline_single_sets(N, ast) -> int:
                 continue
             e = bound[name].node
             subs = [e] + list(e.find_all(N.Node))
-            if any(isinstance(x, N.Call) for x in subs):
+            if any(isinstance(x, N.Call) and not _pure_method_call(N, x) for x in subs):
                 continue
             if any(isinstance(x, N.Filter) and "unique" in x.name for x in subs):
                 continue
